@@ -176,6 +176,10 @@ def run(ctx):
                 continue
             ndec += 1
             ops_seen.add("decoded:" + label)
+            # the full set of value operations on what the decoder built (its leaves are made by the
+            # readers, not by the caller): copy, deepcopy, replace, pickle, hash, ==
+            if ndec % 3 == 0 or thorough:
+                safe_exercise(dec, cl.keys[i] + " (decoded)")
             if not immutable_value(dec):
                 fails.append({"what": f"an instance decoded from {label} holds a mutable field value",
                               "class": cl.keys[i]})
